@@ -246,3 +246,20 @@ MUTANTS = [
 # SESSION7 additions to the claim (clauses added in DESIGN section 12)
 CLAIM['technique'] += '; part-remaining invariant of the multipart data state; size pairs of the carried-over part header'
 CLAIM['text'] += ' C05-j: a pass through the data state forwards at least one byte and, when it uses the part up, also leaves the state. C05-k: the recorded length of the carried-over buffer never exceeds its allocation.'
+
+MUTANTS += [
+    {'id': 'm05j', 'desc': 'part that ends at the end of the buffer stays in the data state (seeded c04r6)', 'file': 'src/lib/dl/multipart.c',
+     'old': """            if(mp->length <= size) {
+                size = mp->length;
+                mp->length = 0;
+                mp->state = 0;
+                header_start = i + size;
+            } else {
+                mp->length -= size;
+            }""", 'new': """            if(size > mp->length) {
+                size = mp->length;
+                mp->state = 0;
+                header_start = i + size;
+            }
+            mp->length -= size;""", 'expect': 'R5.part-remaining multipart_extract'},
+]
